@@ -97,6 +97,8 @@ type Opts struct {
 	LogLevel    string
 	// Hosts without a mysync daemon.
 	NoDaemon map[string]bool
+	// WorkloadOnly restricts client commits to these hosts (nil = every server).
+	WorkloadOnly []string
 	// FirstDaemon, when set, is started first so that it wins the manager lock.
 	FirstDaemon string
 }
@@ -191,6 +193,17 @@ func (s *Sim) CachedChildren(prefix string) []string {
 	}
 	sort.Strings(out)
 	return out
+}
+
+// ActiveNodesCached returns the published list from the cache (safe under the world mutex).
+func (s *Sim) ActiveNodesCached() []string {
+	v, ok := s.Cached("active_nodes")
+	if !ok {
+		return nil
+	}
+	var a []string
+	_ = json.Unmarshal([]byte(v), &a)
+	return a
 }
 
 // WasEverMaster reports whether host was the recorded master at some time of the scenario.
@@ -599,7 +612,11 @@ func (s *Sim) pump() {
 			return
 		case <-tk.C:
 			if s.WorkloadOn.Load() {
-				for _, h := range s.AllHosts() {
+				targets := s.O.WorkloadOnly
+				if targets == nil {
+					targets = s.AllHosts()
+				}
+				for _, h := range targets {
 					for c := 0; c < s.W.ClientsPer; c++ {
 						s.W.Commit(h, c)
 					}
